@@ -23,7 +23,15 @@ import (
 	"time"
 )
 
-const verif = "/verif"
+// verif is the root of the verification tree: the directory check.sh lives in (its working directory).
+var verif = func() string {
+	if d, err := os.Getwd(); err == nil {
+		if _, err := os.Stat(filepath.Join(d, "harness", "go.mod")); err == nil {
+			return d
+		}
+	}
+	return "/verif"
+}()
 
 type Finding struct {
 	Property    string          `json:"property"`
